@@ -248,6 +248,16 @@ Ring2Tail(u) ==
      sa \in Steps1, sb \in Steps1, st \in {<<1>>, <<2>>, <<5>>}, da \in {0, 2, 4, 6}, va \in 1..3, first \in BOOLEAN,
      ord \in Perms3}
 
+(* a producer that finishes early (CSV reader at its last row) next to an independent pair; *)
+(* its readers are a push-based consumer or a consumer that ends before it                   *)
+Finisher(u) ==
+  {MkCfg(<<TimeC(sa, oa, FALSE, <<>>) @@ [fin |-> k], TimeC(sg, 0, FALSE, <<>>), TimeC(sb, 0, FALSE, <<Lk(2, c2)>>)>>
+         \o (IF rd = "sink" THEN <<SinkC(<<Lk(1, <<>>)>>)>> ELSE IF rd = "none" THEN <<>> ELSE <<TimeC(<<1>>, 0, FALSE, <<Lk(1, <<>>)>>) @@ [fin |-> 1]>>),
+         IF rd = "none" THEN (IF rev THEN <<3, 2, 1>> ELSE <<1, 2, 3>>) ELSE (IF rev THEN <<4, 3, 2, 1>> ELSE <<1, 2, 3, 4>>),
+         6, "dag", "finisher") :
+     sa \in {<<1>>, <<2>>}, oa \in {0, 1}, k \in 1..3, sg \in {<<1>>, <<2>>}, sb \in {<<1>>, <<3>>},
+     c2 \in {<<>>, <<Buf("linear")>>}, rd \in {"sink", "none", "short"}, rev \in BOOLEAN}
+
 (* growth beyond the listed properties: push-based consumers (CallbackInput) next to a       *)
 (* time-stepped reader of the same output, directly and behind adapters                      *)
 SinkFan(u) ==
@@ -312,12 +322,13 @@ CfgSpace(f) ==
     [] f = "fanout3shared" -> FanOut3Shared(0)
     [] f = "repeatinteg" -> RepeatInteg(0)
     [] f = "sinkfan"    -> SinkFan(0)
+    [] f = "finisher"   -> Finisher(0)
     [] f = "lateidle"   -> LateIdle(0)
     [] f = "ringfanin"  -> RingFanIn(0)
     [] f = "ring2tail"  -> Ring2Tail(0)
 
 AllFamilies == {"pair", "pairL", "pairXL", "pair3", "chain3t", "chain3p", "fanin2", "fanin1",
                 "fanout", "pullfanout", "diamondt", "diamondp", "pullchain2", "ring2", "ring3",
-                "ring4", "pullring", "pullringtail", "ringbreak", "wsum", "pulltwice", "ring2tail", "fanoutshared", "repeatinteg", "sinkfan", "lateidle", "ringfanin", "fanout3shared", "chain3d", "wsumback"}
+                "ring4", "pullring", "pullringtail", "ringbreak", "wsum", "pulltwice", "ring2tail", "fanoutshared", "repeatinteg", "sinkfan", "lateidle", "ringfanin", "fanout3shared", "chain3d", "wsumback", "finisher"}
 
 =============================================================================
